@@ -44,6 +44,9 @@ Definition iso_datetime (d : datetime_v) : str :=
 (* date.strftime('%Y-%m-%d') with glibc: the year is NOT zero-padded *)
 Definition strftime_ymd (d : date_v) : str := print_nat (dy d) ++ c_minus :: d2 (dm d) ++ c_minus :: d2 (dd d).
 
+(* date.isoformat(): YYYY-MM-DD, the year zero-padded *)
+Definition iso_date (d : date_v) : str := d4 (dy d) ++ c_minus :: d2 (dm d) ++ c_minus :: d2 (dd d).
+
 (* ---- parsing ----------------------------------------------------------------------------------------------------------- *)
 Definition p2 (s : str) : option Z :=
   match s with [a; b] => if is_digit a && is_digit b then Some ((a - 48) * 10 + (b - 48)) else None | _ => None end.
